@@ -1455,8 +1455,31 @@ class ParameterCommand(Command):
             # Disable invoke() in parameters nested in our arguments.
             # We don't want them to invoke, we want them to set our value.
             ParameterCommand.enabled = False
-            type(self).value = self.parse(tex)['value']
+            self.setvalue(self.parse(tex)['value'])
             ParameterCommand.enabled = True
+
+    def setvalue(self, value):
+        """
+        Store a new value of the parameter for the current document
+
+        The parameter classes of the base packages are shared by every
+        document that the interpreter processes, so the value is stored
+        on a subclass that belongs to the context of this document.
+
+        """
+        cls = type(self)
+        document = self.ownerDocument
+        if document is None:
+            cls.value = value
+        elif vars(cls).get('@document') is document:
+            cls.value = value
+        else:
+            name = macroName(self)
+            newclass = type(cls.__name__, (cls,),
+                            {'value': value, '@document': document,
+                             'macroName': cls.macroName})
+            document.context.addGlobal(name, newclass)
+            self.__class__ = newclass
 
     @classmethod
     def enable(cls):
@@ -1499,10 +1522,10 @@ class DimenCommand(RegisterCommand):
     value = dimen(0)
 
     def setlength(self, len):
-        type(self).value = dimen(len)
+        self.setvalue(dimen(len))
 
     def addtolength(self, len):
-        type(self).value = dimen(type(self).value + len)
+        self.setvalue(dimen(type(self).value + len))
 
     @classmethod
     def new(cls, *args, **kwargs):
@@ -1513,10 +1536,10 @@ class MuDimenCommand(RegisterCommand):
     value = mudimen(0)
 
     def setlength(self, len):
-        type(self).value = mudimen(len)
+        self.setvalue(mudimen(len))
 
     def addtolength(self, len):
-        type(self).value = mudimen(type(self).value + len)
+        self.setvalue(mudimen(type(self).value + len))
 
     @classmethod
     def new(cls, *args, **kwargs):
@@ -1527,10 +1550,10 @@ class GlueCommand(RegisterCommand):
     value = glue(0)
 
     def setlength(self, len):
-        type(self).value = glue(len)
+        self.setvalue(glue(len))
 
     def addtolength(self, len):
-        type(self).value = glue(type(self).value + len)
+        self.setvalue(glue(type(self).value + len))
 
     @classmethod
     def new(cls, *args, **kwargs):
@@ -1541,10 +1564,10 @@ class MuGlueCommand(RegisterCommand):
     value = muglue(0)
 
     def setlength(self, len):
-        type(self).value = muglue(len)
+        self.setvalue(muglue(len))
 
     def addtolength(self, len):
-        type(self).value = muglue(type(self).value + len)
+        self.setvalue(muglue(type(self).value + len))
 
     @classmethod
     def new(cls, *args, **kwargs):
